@@ -377,8 +377,10 @@ class Scenario:
             parts = name.split(":")
             realm = {"own": env.NODE_REALM, "r2": "realm2.example", "foreign": "nowhere.example"}[parts[2]]
             flags = R | P | (T if "T" in parts[3:] else 0)
+            # "alias": the required AVP is missing, but an AVP with the same code under a foreign vendor is present
+            extra = [rc.enc_avp(485, b"\x00\x00\x00\x07", 0x80, 99_999)] if "alias" in parts[3:] else []
             d = env.acr(host=host, hbh=hbh, e2e=e2e, app=int(parts[1]), dest_realm=realm, flags=flags,
-                        missing=(485,) if "missing" in parts[3:] else ())
+                        missing=(485,) if ("missing" in parts[3:] or "alias" in parts[3:]) else (), extra=extra)
         elif name.startswith("rt:"):
             # rt:<origin a|b>:<T 0|1>:<end-to-end id from a small pool>   (requests relayed for two origin hosts)
             parts = name.split(":")
